@@ -542,32 +542,41 @@ func c17StackView(p *profile.Profile) string {
 	return w.String()
 }
 
-// c17ChangedParam names the URL parameters in which the request differs from the one before it.
+// c17ChangedParam names the URL parameters in which the checked request differs from some earlier
+// request of its sequence.
 func c17ChangedParam(cs c17Case) string {
 	if len(cs.Before) == 0 {
 		return "none"
 	}
-	a, b := cs.Before[len(cs.Before)-1], cs.req()
-	var d []string
-	if a.SampleIndex != b.SampleIndex {
-		d = append(d, "si")
-	}
-	if a.Gran != b.Gran {
-		d = append(d, "g")
-	}
-	if a.NoInlines != b.NoInlines {
-		d = append(d, "noinlines")
-	}
-	if a.ShowColumns != b.ShowColumns {
-		d = append(d, "showcolumns")
-	}
-	for _, k := range []string{"f", "i", "h", "s", "sf", "tf", "ti"} {
-		if a.Filters[k] != b.Filters[k] {
-			d = append(d, k)
+	b := cs.req()
+	set := map[string]bool{}
+	for _, a := range cs.Before {
+		if a.SampleIndex != b.SampleIndex {
+			set["si"] = true
+		}
+		if a.Gran != b.Gran {
+			set["g"] = true
+		}
+		if a.NoInlines != b.NoInlines {
+			set["noinlines"] = true
+		}
+		if a.ShowColumns != b.ShowColumns {
+			set["showcolumns"] = true
+		}
+		for _, k := range []string{"f", "i", "h", "s", "tf", "ti"} {
+			if a.Filters[k] != b.Filters[k] {
+				set[k] = true
+			}
 		}
 	}
-	if len(d) == 0 {
-		return "same"
+	if len(set) == 0 {
+		return "reload"
+	}
+	var d []string
+	for _, k := range []string{"si", "g", "noinlines", "showcolumns", "f", "i", "h", "s", "tf", "ti"} {
+		if set[k] {
+			d = append(d, k)
+		}
 	}
 	return strings.Join(d, "+")
 }
@@ -865,7 +874,10 @@ func runC17(c *Ctx) {
 		"Profile.Aggregate per granularity (raw, functions, filefunctions, files, lines, addresses ± noinlines ± columns), " +
 		"then report.New(p, opts).Stacks(); plus hand-built shapes (a a a, a b a b, inlined+non-inlined same function, " +
 		"no samples, only empty stacks). web: ASCII profiles through driver.PProf(-http) with the HTTPServer hook, GET " +
-		"/flamegraph?si=&g=&noinlines=, JSON taken from the page. Non-trivial: at least one getSrc call finds an " +
+		"/flamegraph?si=&g=&noinlines=, JSON taken from the page; webseq: the same on profiles with >=2 sample types and labels, after 1-2 " +
+		"earlier requests on the SAME server that differ in one URL parameter (si, g, noinlines, showcolumns, f, i, h, s, tf, ti, reload), " +
+		"answer compared with oracle/model for this request and with a fresh server. Expected frames come from the harness's own reading " +
+		"of the granularity (= Lean Spec.aggregate), never from Profile.Aggregate; 25% of locations repeat a function in their inline chain. Non-trivial: at least one getSrc call finds an " +
 		"already interned source (slots > distinct sources), i.e. the interning table and the place index are shared " +
 		"between stack slots; recursion (a source twice in one stack) is measured separately."
 	if c.Replay != "" {
